@@ -50,6 +50,9 @@ def finish(run, events, tag, tier):
     run.transitions += len(events)
     run.events += ok
     run.traces_validated += ok
+    run.drift += vlib.LAST_DRIFT
+    if vlib.LAST_DRIFT:
+        vlib.log("MODEL DRIFT (RefMap.tla): %d references whose index entries / repeat-mask coordinates differ from the model's" % vlib.LAST_DRIFT)
     for e in events:
         if e["ev"] == "map" and e.get("panic") == "" and "aln" in e:
             run.sample({"ev": "map", "via": e["via"], "k": e["ctx"]["table"]["k"], "ambig_mask": e["ctx"]["ambig_mask"],
